@@ -539,7 +539,7 @@ func (g *hgen) commitBlock(final bool) bool {
 		ci := g.cache()
 		bound := 1
 		if ci != nil {
-			bound = 2 + 2*g.muts
+			bound = 2 + 4*g.muts
 		}
 		k := r.Intn(bound)
 		if r.Chance(1, 2) {
@@ -660,8 +660,8 @@ func (g *hgen) failatSweep(w *bufio.Writer, lines []string) {
 	}
 	n := ci.fail.n
 	s.Reset()
-	if n > 16 {
-		n = 16
+	if n > 24 {
+		n = 24
 	}
 	for k := 0; k < n; k++ {
 		for _, l := range body {
